@@ -217,8 +217,24 @@ func runEnc(prop string, seed uint64, tier, dir string) error {
 			pktFirst = first
 			v, term, kind = e, "(EPkt "+bterm(first)+")", "packet:"+k
 		case which < 5:
-			m, t, k, xid := g.message(2)
+			depth := 2
+			if rng.Intn(25) == 0 {
+				depth = 4 // bundles in bundles, conntrack actions in conntrack actions
+			}
+			if rng.Intn(30) == 0 {
+				rng.boost = 64 // one list of this message has more than 255 elements
+			}
+			m, t, k, xid := g.message(depth)
+			rng.boost = 0
 			v, term, kind = m, fmt.Sprintf("(EMsg %d %s)", xid, t), "msg:"+k
+			if prop == "C13" && rng.Intn(4) == 0 {
+				// the same operations on the value obtained by DECODING the message
+				if b, ok := marshalSafe(m); ok && len(b) < 65536 {
+					if d, err := of.Parse(b); err == nil && d != nil {
+						v, term, kind = d, fmt.Sprintf("(EDec %d %s)", xid, t), "decoded:"+k
+					}
+				}
+			}
 		case which < 7:
 			a, t := g.action(2)
 			g.flushLate()
@@ -294,6 +310,6 @@ func runEnc(prop string, seed uint64, tier, dir string) error {
 		o.Add(fmt.Sprintf("(Enc %s %s %d %s)", term, obsTerm(res), hs, listT(kidTerms)), js, kind, shape)
 	}
 	o.Meta["element_kinds_used"] = kindTotals
-	o.Meta["rule"] = "random recipes of API calls (constructors, setter calls, field assignments, adders incl. prepend) for every controller-originated message kind; for C06 / C13 also Ethernet frames and values of the record kinds of package protocol (IGMP v1-v3, DHCP with options, LLDP, 802.1Q tag, IPv6 option); (flow-mod with all commands 0..255, group-mod, packet-out, port-mod, multipart requests, NXT vendor messages, bundle control, bundle add nesting depth <= 2) and stand-alone elements (all action kinds incl. conntrack nesting, match fields through every constructor, instructions, buckets, matches); boundary-biased field values, geometric list sizes; a case is distinct by kind x number of element kinds used x recipe size bucket"
+	o.Meta["rule"] = "random recipes of API calls (constructors, setter calls, field assignments, adders incl. prepend) for every controller-originated message kind; for C13 also the values obtained by parsing the encodings of built messages; for C06 / C13 also Ethernet frames and values of the record kinds of package protocol (IGMP v1-v3, DHCP with options, LLDP, 802.1Q tag, IPv6 option); (flow-mod with all commands 0..255, group-mod, packet-out, port-mod, multipart requests, NXT vendor messages, bundle control, bundle add nesting depth <= 2) and stand-alone elements (all action kinds incl. conntrack nesting, match fields through every constructor, instructions, buckets, matches); boundary-biased field values, geometric list sizes; a case is distinct by kind x number of element kinds used x recipe size bucket"
 	return o.Close()
 }
